@@ -77,11 +77,11 @@ Theorem rangepoint_text_key : forall v2 nornet lmap ip ml null locid,
     convert o v2 nornet r' =
       [([0; 0; 0; 33] ++ lmap ++ ip ++ [if null then 0 else ml], if null then [] else locid)] /\
     convert o v2 nornet r' = convert o v2 nornet (RRangePoint lmap ip ml null locid).
-Proof.
+Proof using o serial Hip_rt Hip_nosep.
   intros v2 nornet lmap ip ml null locid W. split; [|split].
   - unfold marshal, line_of, SEPC. destruct null; cbn [app joinb]; rewrite ?app_nil_r; reflexivity.
   - intros _ H. cbn [wf_recordb] in W. apply andb_true_iff in W. destruct W as [W _].
-    apply andb_true_iff in W. destruct W as [_ W]. apply N.ltb_lt in W. lia.
+    apply andb_true_iff in W. destruct W as [_ W]. apply N.ltb_lt in W. apply ml_minus96; assumption.
   - exists (norm serial (RRangePoint lmap ip ml null locid)). split; [apply parse_rangepoint; assumption|].
     cbn [norm convert]. destruct null; split; reflexivity.
 Qed.
